@@ -30,6 +30,7 @@ def gen(rng, facts):
         elif r < 0.82: c.resume(t)
         elif r < 0.86: c.tick(rng.choice([1, 1000, 1001]))
         else: c.poll()
+    c.mark_tail()
     for _ in range(4):
         for t in range(nt): c.resume(t)
         c.tick(2000)
